@@ -594,6 +594,55 @@ theorem normalise_nonneg (J A : ℝ) (hJ : 0 ≤ J) : 0 ≤ normalise J A ∧
     have : ¬ ((0.0:ℝ) < A) := by norm_num at h ⊢; exact h
     rw [if_neg this]
 
+/-! ## the subgrid-level wrappers: luminosity, total weight and cell volume -/
+
+/-- the cells of a subgrid fill its box: `nx ny nz` cells of volume `cellVolume` -/
+theorem cellVolume_fill (sx sy sz nx ny nz : ℝ) (hx : nx ≠ 0) (hy : ny ≠ 0) (hz : nz ≠ 0) :
+    nx * ny * nz * cellVolume sx sy sz nx ny nz = sx * sy * sz := by
+  unfold cellVolume; field_simp
+
+/-- The value handed to the kernel is `jfac · counter = L · counter / (totweight · V)`: the
+photoionization rate per unit volume of THIS cell for the CURRENT luminosity. -/
+theorem wrapper_rate (L tw V J : ℝ) (htw : tw ≠ 0) (hV : V ≠ 0) :
+    jfacCell L tw V * J = L * J / (tw * V) ∧
+    hfacCell L tw V = jfacCell L tw V * 6.626070040e-34 := by
+  unfold jfacCell hfacCell hfacOf jfacOf
+  constructor <;> field_simp
+
+/-- After `update_luminosity(L)` both branches of `calculate_temperature(loop, totweight,
+subgrid)` — the temperature branch and the ionization-only branch through the embedded
+`IonizationStateCalculator` — normalise with the NEW luminosity, whatever was stored before. -/
+theorem update_luminosity_sync (L : ℝ) (l : Lums ℝ) (doTemp : Bool) (loop minIter : Nat) :
+    lumUsed doTemp loop minIter (updateLuminosity L l) = L := by
+  unfold lumUsed updateLuminosity; split_ifs <;> rfl
+
+/-- Hydrogen-only gas through the wrapper: the neutral fraction stored in a cell of volume
+`V = cellVolume …` solves the balance equation for the rate `L J / (totweight V)` of the current
+luminosity (square-root branch, `C ≤ 4e10`). -/
+theorem wrapper_h0_balance (alphaH n L tw J sx sy sz nx ny nz : ℝ) (ha : 0 < alphaH) (hn : 0 < n)
+    (hL : 0 < L) (htw : 0 < tw) (hJ : 0 < J) (hs : 0 < sx ∧ 0 < sy ∧ 0 < sz)
+    (hc : 0 < nx ∧ 0 < ny ∧ 0 < nz)
+    (hC : L * J / (tw * cellVolume sx sy sz nx ny nz) / (n * alphaH) ≤ 4e10) :
+    let x := h0Hydrogen alphaH (jfacCell L tw (cellVolume sx sy sz nx ny nz) * J) n
+    x ^ 2 - (2 + L * J / (tw * cellVolume sx sy sz nx ny nz) / (n * alphaH)) * x + 1 = 0 := by
+  have hV : 0 < cellVolume sx sy sz nx ny nz := by
+    unfold cellVolume
+    obtain ⟨a1, a2, a3⟩ := hs
+    obtain ⟨b1, b2, b3⟩ := hc
+    positivity
+  have e := (wrapper_rate L tw (cellVolume sx sy sz nx ny nz) J htw.ne' hV.ne').1
+  have hj : 0 < jfacCell L tw (cellVolume sx sy sz nx ny nz) * J := by rw [e]; positivity
+  have := (h0_solves_balance alphaH _ n ha hj hn (by rw [e]; exact hC)).2
+  rw [e] at this ⊢
+  exact this
+
+/-- non-vacuity of `wrapper_h0_balance` (non-cubic cells) -/
+example : ∃ alphaH n L tw J sx sy sz nx ny nz : ℝ, 0 < alphaH ∧ 0 < n ∧ 0 < L ∧ 0 < tw ∧ 0 < J ∧
+    (0 < sx ∧ 0 < sy ∧ 0 < sz) ∧ (0 < nx ∧ 0 < ny ∧ 0 < nz) ∧
+    L * J / (tw * cellVolume sx sy sz nx ny nz) / (n * alphaH) ≤ 4e10 :=
+  ⟨1, 1, 1, 1, 1, 1, 2, 3, 1, 1, 1, by norm_num, by norm_num, by norm_num, by norm_num, by norm_num,
+    by norm_num, by norm_num, by unfold cellVolume; norm_num⟩
+
 /-! ## outputs depend on the inputs of the update only -/
 
 /-- The model represents the coolant fractions stored in the cell before the call as the input
